@@ -902,7 +902,7 @@ func (e *Enc) run() (err error) {
 				}
 			}
 			if !seen {
-				panic(fmt.Errorf("contract error (%s assert#%d): no statement of the function is on a line containing %q", e.key, i+1, cl.At))
+				panic(fmt.Errorf("contract error (%s assert#%d): no statement of the function is on a line containing %q", e.key, i+1, cl.At+cl.Before))
 			}
 		}
 	}
@@ -1296,8 +1296,10 @@ func (e *Enc) encodeBlock(b *ssa.BasicBlock) {
 				if _, isDbg := in.(*ssa.DebugRef); !isDbg {
 					line := fn.Prog.Fset.Position(pos).Line
 					if line != curLine {
-						e.checkAsserts(b, idx, curLine, st)
+						e.checkAsserts(b, idx, curLine, st, false)
 						curLine = line
+						// `assert … before "text"`: in the state before the first instruction of the line
+						e.checkAsserts(b, idx, line, st, true)
 					}
 				}
 			}
@@ -1305,7 +1307,7 @@ func (e *Enc) encodeBlock(b *ssa.BasicBlock) {
 		e.encodeInstr(in, st)
 	}
 	if e.inl == nil && e.fc != nil && len(e.fc.Asserts) > 0 {
-		e.checkAsserts(b, len(b.Instrs), curLine, st)
+		e.checkAsserts(b, len(b.Instrs), curLine, st, false)
 	}
 
 	// successors
@@ -1475,7 +1477,7 @@ func (e *Enc) loopResolver(li *loopInfo, st0 *State, phiVal func(*ssa.Phi) strin
 
 // checkAsserts generates the obligations of `assert ... at "text"` clauses whose text occurs on the
 // source line whose statements have just been encoded (the instructions of block b before index cut).
-func (e *Enc) checkAsserts(b *ssa.BasicBlock, cut int, line int, st *State) {
+func (e *Enc) checkAsserts(b *ssa.BasicBlock, cut int, line int, st *State, before bool) {
 	if line == 0 {
 		return
 	}
@@ -1490,13 +1492,17 @@ func (e *Enc) checkAsserts(b *ssa.BasicBlock, cut int, line int, st *State) {
 		return
 	}
 	for i, cl := range e.fc.Asserts {
-		if !strings.Contains(text, cl.At) {
+		anchor, where := cl.At, "after"
+		if before {
+			anchor, where = cl.Before, "before"
+		}
+		if anchor == "" || !strings.Contains(text, anchor) {
 			continue
 		}
 		if e.assertDone == nil {
 			e.assertDone = map[string]bool{}
 		}
-		key := fmt.Sprintf("%d@%d@%d", i, line, b.Index)
+		key := fmt.Sprintf("%d@%d@%d@%v", i, line, b.Index, before)
 		if e.assertDone[key] {
 			continue
 		}
@@ -1511,7 +1517,7 @@ func (e *Enc) checkAsserts(b *ssa.BasicBlock, cut int, line int, st *State) {
 			label = fmt.Sprint(i + 1)
 		}
 		n := e.count("assert." + label)
-		e.oblig("assert", fmt.Sprintf("assert[%s]#%d", label, n), goal, cl.Src+"   [after the statement at "+posOfLine(e.fn, b, line)+"]", cl)
+		e.oblig("assert", fmt.Sprintf("assert[%s]#%d", label, n), goal, cl.Src+"   ["+where+" the statement at "+posOfLine(e.fn, b, line)+"]", cl)
 		e.fact(goal)
 		e.assertSeen = append(e.assertSeen, i)
 	}
